@@ -315,7 +315,10 @@ fn parse_probe(line: &str) -> Case {
 /// these shapes.  `modelled` = the Lean model mirrors jj's (gix's) behaviour here, so the case also
 /// goes through the tie; otherwise it is an oracle-only case.
 fn finding_cases(out: &mut Out, env: &mut Env) {
-    let cases: [(&str, &str, bool); 6] = [
+    let many_stars = format!("={}\\n|{},b", "a*".repeat(70), "a".repeat(70));
+    let cases: [(&str, &str, bool); 7] = [
+        // gix-glob gives up (no match) at recursion depth 64 = 64 nested `*` frames; Git has no limit
+        ("gitignore:wildmatch-recursion-limit", &many_stars, false),
         // gix-ignore drops every line that starts with `!$` (reserved for "precious" syntax): no re-inclusion
         ("gitignore:negated-dollar-line-dropped", "=*a\\n!$a\\n|$a,xa,d/$a", true),
         // bstr::lines keeps a CR that ends the file without LF; Git strips it
